@@ -294,6 +294,12 @@ structure PemIn where
   der : DerRes
   /-- DSA only: asn1.Unmarshal left trailing bytes -/
   dsaRest : Bool
+  /-- DSA only: the integers of the SEQUENCE (P, Q, Priv, Pub) and the stdlib value Exp(G, Priv, P) -/
+  dsaP : Int := 0
+  dsaQ : Int := 0
+  dsaX : Int := 0
+  dsaY : Int := 0
+  dsaExp : Int := 0
 
 inductive PemRes where
   | err | needPass | badPass
@@ -313,10 +319,16 @@ def tyEC := nm "EC PRIVATE KEY"
 def tyDSA := nm "DSA PRIVATE KEY"
 def tyOpenSSH := nm "OPENSSH PRIVATE KEY"
 
-/-- `ParseDSAPrivateKey` on top of the asn1 oracle: no validation beyond "nothing after the SEQUENCE" -/
+/-- the consistency test added by a54718d:
+    `P.Sign() <= 0 || Priv.Sign() <= 0 || Priv.Cmp(Q) >= 0 || Exp(G, Priv, P) != Pub` ⇒ error -/
+def dsaConsistent (i : PemIn) : Bool :=
+  decide (0 < i.dsaP) && decide (0 < i.dsaX) && decide (i.dsaX < i.dsaQ) && decide (i.dsaExp = i.dsaY)
+
+/-- `ParseDSAPrivateKey` on top of the asn1 oracle: nothing after the SEQUENCE, then the public value
+    must be the one belonging to the private value -/
 def dsaDer (i : PemIn) : DerRes :=
   match i.der with
-  | .ok k p => if i.dsaRest then .err else .ok k p
+  | .ok k p => if i.dsaRest then .err else if !dsaConsistent i then .err else .ok k p
   | _ => .err           -- the asn1 error is re-wrapped with errors.New: never a StructuralError
 
 /-- `ParseRawPrivateKey` for block types other than OPENSSH PRIVATE KEY -/
